@@ -284,7 +284,7 @@ def check(run):
     answers = harness.run_jsonl(binpath, [request(c) for c in cases])
     impl = [impl_str(c, a) for c, a in zip(cases, answers)]
     try:
-        model = coqtools.coq_eval("C24", IMPORTS, [g_case(c) for c in cases], shard=max(20, min(250, len(cases) // 16 + 1)))
+        model = coqtools.coq_eval("C24", IMPORTS, [g_case(c) for c in cases], shard=min(600, max(100, len(cases) // 6 + 1)))
     except RuntimeError as e:
         run.tie_broken("model evaluation (coqc cases)", str(e))
         model = [None] * len(cases)
